@@ -286,6 +286,13 @@ fn ra_code(rng: &mut Rng, r: usize, n: usize) -> Mat {
             e.push((j, k + j - 1));
         }
     }
+    // every check must involve at least two bits (the decoders' domain): row 0 has a single staircase
+    // entry, so give it an information bit if the random columns did not
+    for j in 0..r {
+        if k > 0 && e.iter().filter(|x| x.0 == j).count() < 2 {
+            e.push((j, rng.below(k)));
+        }
+    }
     Mat::new(r, n, e, "ra")
 }
 
@@ -373,7 +380,8 @@ fn encode_cmd(l: &mut Local, rng: &mut Rng, dir: &str, idx: u64) {
         Some(p)
     };
     let ps = pattern.as_ref().map(|p| p.iter().map(|&b| if b { "1" } else { "0" }).collect::<Vec<_>>().join(","));
-    let words = rng.range(0, 5);
+    // mostly a handful of words; every 8th case a long input (tens of kilobytes, several I/O buffers)
+    let words = if idx % 8 == 3 { rng.range(600, 2500) } else { rng.range(0, 5) };
     let partial = rng.range(0, k - 1);
     let input: Vec<u8> = (0..words * k + partial).map(|_| rng.coin() as u8).collect();
     write_file(&ipath, &input);
